@@ -2,7 +2,7 @@
 # usage: tools/with_mutant.sh <patch.diff|sed-script.sed> <command...>
 # runs <command> with PYVC_REPO pointing at a scratch copy of /repo with the change applied; removes the copy.
 set -e
-P="$1"; shift
+P="$(realpath "$1")"; shift
 D=$(mktemp -d /var/tmp/hc-mut-XXXXXX)
 trap 'rm -rf "$D"' EXIT
 mkdir -p "$D/repo"
